@@ -493,11 +493,13 @@ func (se *SessionExecutor) getBackendKsConn(reqCtx *util.RequestContext, sliceNa
 		return
 	}
 
+	// on failure the connection has been closed and recycled here: do not hand it to the
+	// caller, who would recycle it a second time
 	if !se.isAutoCommit() {
 		if err = pc.SetAutoCommit(0); err != nil {
 			pc.Close()
 			pc.Recycle()
-			return
+			return nil, err
 		}
 	}
 
@@ -505,7 +507,7 @@ func (se *SessionExecutor) getBackendKsConn(reqCtx *util.RequestContext, sliceNa
 		if err = pc.Begin(); err != nil {
 			pc.Close()
 			pc.Recycle()
-			return
+			return nil, err
 		}
 	}
 
@@ -531,22 +533,24 @@ func (se *SessionExecutor) getTransactionConn(sliceName string) (pc backend.Pool
 	// Setting session variables after `BEGIN` might not affect the transaction as expected,
 	// since some session settings need to be established before the transaction starts.
 	// pc.SetAutoCommit(0) is equivalent to starting a transaction
+	// on failure the connection is closed and recycled here: do not hand it to the caller,
+	// who would recycle it a second time
 	if err = pc.SyncSessionVariables(se.sessionVariables); err != nil {
 		pc.Close()
 		pc.Recycle()
-		return
+		return nil, err
 	}
 	if !se.isAutoCommit() {
 		if err = pc.SetAutoCommit(0); err != nil {
 			pc.Close()
 			pc.Recycle()
-			return
+			return nil, err
 		}
 	} else {
 		if err = pc.Begin(); err != nil {
 			pc.Close()
 			pc.Recycle()
-			return
+			return nil, err
 		}
 	}
 	for _, savepoint := range se.savepoints {
@@ -562,7 +566,7 @@ func (se *SessionExecutor) recycleBackendConn(pc backend.PooledConnect) {
 	}
 
 	if pc.IsClosed() {
-		se.recycleTx()
+		se.forgetClosedConn(pc)
 		pc.Recycle()
 		return
 	}
@@ -589,7 +593,7 @@ func (se *SessionExecutor) recycleContinueConn(pc backend.PooledConnect) {
 		return
 	}
 	if pc.IsClosed() {
-		se.recycleTx()
+		se.forgetClosedConn(pc)
 		pc.Recycle()
 		return
 	}
@@ -604,7 +608,17 @@ func (se *SessionExecutor) recycleContinueConn(pc backend.PooledConnect) {
 }
 
 func (se *SessionExecutor) recycleBackendConns(pcs map[string]backend.PooledConnect, rollback bool) {
-	if se.isInTransaction() || se.IsKeepSession() {
+	if se.IsKeepSession() {
+		// a pinned connection that has been closed (error, timeout) must not stay pinned
+		for _, pc := range pcs {
+			if pc != nil && pc.IsClosed() {
+				se.forgetClosedConn(pc)
+				pc.Recycle()
+			}
+		}
+		return
+	}
+	if se.isInTransaction() {
 		return
 	}
 
@@ -839,6 +853,9 @@ func (se *SessionExecutor) executeMultipleSQLInSlice(requestContext *util.Reques
 				if killErr := se.killSliceQueries(pooledConn, currentSliceName, sqlStatement); killErr != nil {
 					log.Warn("failed to kill query error: %v", killErr)
 				}
+				// the statement may still be executing on this connection: close it (as
+				// executeUnshardSQLInSlice does) so that it is discarded instead of reused
+				pooledConn.Close()
 				return sliceResults, fmt.Errorf("slice: %s execution timed out, sql : %s", currentSliceName, sqlStatement)
 			case execResult := <-execResultChan:
 				// SQL 执行成功/失败，记录SQL
@@ -1498,10 +1515,10 @@ func (se *SessionExecutor) rollback() (err error) {
 	defer se.txLock.Unlock()
 	se.status &= ^mysql.ServerStatusInTrans
 	for _, pc := range se.txConns {
-		if pc.IsClosed() {
-			continue
+		// a closed connection cannot be rolled back but still has to be given back
+		if !pc.IsClosed() {
+			err = pc.Rollback()
 		}
-		err = pc.Rollback()
 		pc.Recycle()
 	}
 
@@ -1566,13 +1583,35 @@ func (se *SessionExecutor) handleSavepoint(stmt *ast.SavepointStmt) (err error) 
 	return
 }
 
-func (se *SessionExecutor) recycleTx() {
+// recycleTx gives up the transaction connections after one of them (closed, recycled by
+// the caller) was lost: the others are rolled back and recycled, not just forgotten
+func (se *SessionExecutor) recycleTx(closed backend.PooledConnect) {
 	if !se.isInTransaction() {
 		return
 	}
 	se.txLock.Lock()
 	defer se.txLock.Unlock()
+	for _, pc := range se.txConns {
+		if pc == closed {
+			continue
+		}
+		if !pc.IsClosed() {
+			pc.Rollback()
+		}
+		pc.Recycle()
+	}
 	se.txConns = make(map[string]backend.PooledConnect)
+}
+
+// forgetClosedConn removes a closed connection, which the caller is about to recycle, from
+// the keep-session map and from the open transaction
+func (se *SessionExecutor) forgetClosedConn(closed backend.PooledConnect) {
+	for sliceName, ksConn := range se.ksConns {
+		if ksConn == closed {
+			delete(se.ksConns, sliceName)
+		}
+	}
+	se.recycleTx(closed)
 }
 
 // handleKQuit close backend connection and recycle, only called when client exit
